@@ -54,7 +54,7 @@ def check(prop, tier, seed):
             nd += 1
             if nd <= 3:
                 verdict.drift.append(f'script {st["script"]} lazy={st["lazy"]}: model predicted connect={st["expect_connect"]} {st["expect"]}, code gave connect={conn} {got}')
-    cov['mechanism_drift_runs'] = nd
+    cov['mechanism_drift'] = f'{nd} runs differ from the Mechanism model prediction'
     cov['samples'].append({'family': 'scripts', 'stimulus': simple.sample_of(stims)})
     cov['exhaustive'] = True
     cov['exhaustive_note'] = 'every script over {F,S,D} of length <= 5, lazy and eager, 5 calls each, is model checked and replayed on the real Channel'
